@@ -217,6 +217,7 @@ class SelfOracle:
         self.cls_name = cls_name
         _, self.t0, self.tick, self.step_size = ctor["args"][:4]
         self.steps = 0
+        self.n_trades = 0
         self.series = {k: [] for k in CANON_MD_KEYS}
         # before the first step the environment describes the empty book it was constructed with
         self.row = [0, 0, PMAX, 0, 0] + [0] * 40
@@ -226,7 +227,12 @@ class SelfOracle:
         orders = norm(obj.get_orders())
         trades = norm(obj.get_trades())
         lo = self.t0 + (self.steps - 1) * self.step_size
-        traded = sum(t[3] for t in trades if lo <= t[0] < lo + self.step_size)
+        if self.step_size > 0:
+            traded = sum(t[3] for t in trades if lo <= t[0] < lo + self.step_size)
+        else:
+            # the clock never moves: the step's trades are the growth of the log since the end of the previous step
+            traded = sum(t[3] for t in trades[self.n_trades:])
+        self.n_trades = len(trades)
         act = [o for o in orders if o[1] == 1]
         bids = [o for o in act if o[0]]
         asks = [o for o in act if not o[0]]
